@@ -6,6 +6,7 @@ import (
 	"go/token"
 	"go/types"
 	"sort"
+	"strconv"
 	"strings"
 
 	"golang.org/x/tools/go/cfg"
@@ -472,6 +473,178 @@ func ruleAppendAlias(c *Ctx) {
 		}
 	}
 	c.Floor("append calls scanned in package mpt", ctl, 10)
+	appendAliasEscapes(c)
+}
+
+// appendAliasEscapes is the second half of the same convention (finding 84): the field need not be appended to where
+// it is read. A function that *returns* a node's slice field itself hands the shared array to its caller; if a
+// caller appends to what it got - directly, or by passing it to a function that appends to that parameter
+// (Billet.traverse builds the paths of the children with append(path, i)) - the bytes behind the key are overwritten
+// just the same. For every function of the package that returns a bare slice field of a trie node type, no caller
+// lets that result reach the first argument of an append.
+func appendAliasEscapes(c *Ctx) {
+	pk := c.P.Pkg(mptPkg)
+	if pk == nil {
+		return
+	}
+	info := pk.TypesInfo
+	nodeTypes := map[string]bool{"ExtensionNode": true, "LeafNode": true, "HashNode": true, "BranchNode": true, "BaseNode": true}
+	var decls []*FuncDecl
+	for _, fd := range c.P.AllFuncDecls() {
+		if fd.Pkg == pk && fd.Decl.Body != nil {
+			decls = append(decls, fd)
+		}
+	}
+	// appendsTo[f][i]: f appends to its i-th parameter (or hands it to a function that does)
+	appendsTo := map[*types.Func]map[int]bool{}
+	paramIdx := func(fd *FuncDecl, o types.Object) int {
+		sig := fd.Obj.Type().(*types.Signature)
+		for i := 0; i < sig.Params().Len(); i++ {
+			if sig.Params().At(i) == o {
+				return i
+			}
+		}
+		return -1
+	}
+	for changed := true; changed; {
+		changed = false
+		for _, fd := range decls {
+			inspectNoLit(fd.Decl.Body, func(x ast.Node) bool {
+				call, ok := x.(*ast.CallExpr)
+				if !ok {
+					return true
+				}
+				mark := func(arg ast.Expr) {
+					id, ok := ast.Unparen(arg).(*ast.Ident)
+					if !ok {
+						return
+					}
+					if i := paramIdx(fd, info.ObjectOf(id)); i >= 0 {
+						if appendsTo[fd.Obj] == nil {
+							appendsTo[fd.Obj] = map[int]bool{}
+						}
+						if !appendsTo[fd.Obj][i] {
+							appendsTo[fd.Obj][i] = true
+							changed = true
+						}
+					}
+				}
+				if id, ok := call.Fun.(*ast.Ident); ok && id.Name == "append" && len(call.Args) >= 2 {
+					if _, isB := info.ObjectOf(id).(*types.Builtin); isB {
+						mark(call.Args[0])
+					}
+					return true
+				}
+				if fn := calleeFunc(info, call); fn != nil && appendsTo[fn] != nil {
+					for i, a := range call.Args {
+						if appendsTo[fn][i] {
+							mark(a)
+						}
+					}
+				}
+				return true
+			})
+		}
+	}
+	// functions that return a bare slice field of a node
+	type esc struct {
+		fd  *FuncDecl
+		idx int
+		ret *ast.ReturnStmt
+		fld string
+	}
+	var escapes []esc
+	nret := 0
+	for _, fd := range decls {
+		inspectNoLit(fd.Decl.Body, func(x ast.Node) bool {
+			rs, ok := x.(*ast.ReturnStmt)
+			if !ok {
+				return true
+			}
+			nret++
+			for i, r := range rs.Results {
+				se, ok := ast.Unparen(r).(*ast.SelectorExpr)
+				if !ok {
+					continue
+				}
+				v, ok := info.ObjectOf(se.Sel).(*types.Var)
+				if !ok || !v.IsField() {
+					continue
+				}
+				if _, isSl := v.Type().Underlying().(*types.Slice); !isSl {
+					continue
+				}
+				t := info.TypeOf(se.X)
+				if pt, ok := t.(*types.Pointer); ok {
+					t = pt.Elem()
+				}
+				if nt, ok := t.(*types.Named); ok && nt.Obj().Pkg() == pk.Types && nodeTypes[nt.Obj().Name()] {
+					escapes = append(escapes, esc{fd, i, rs, nt.Obj().Name() + "." + v.Name()})
+				}
+			}
+			return true
+		})
+	}
+	c.Floor("return statements scanned in package mpt", nret, 100)
+	n := 0
+	reported := map[string]bool{}
+	for _, e := range escapes {
+		for _, g := range decls {
+			inspectNoLit(g.Decl.Body, func(x ast.Node) bool {
+				as, ok := x.(*ast.AssignStmt)
+				if !ok || len(as.Rhs) != 1 || e.idx >= len(as.Lhs) {
+					return true
+				}
+				call, ok := ast.Unparen(as.Rhs[0]).(*ast.CallExpr)
+				if !ok || calleeFunc(info, call) != e.fd.Obj {
+					return true
+				}
+				id, ok := as.Lhs[e.idx].(*ast.Ident)
+				if !ok || id.Name == "_" {
+					return true
+				}
+				v := info.ObjectOf(id)
+				// does v reach the first argument of an append in g?
+				via := ""
+				inspectNoLit(g.Decl.Body, func(y ast.Node) bool {
+					cl, ok := y.(*ast.CallExpr)
+					if !ok {
+						return true
+					}
+					if aid, ok := cl.Fun.(*ast.Ident); ok && aid.Name == "append" && len(cl.Args) >= 2 {
+						if _, isB := info.ObjectOf(aid).(*types.Builtin); isB {
+							if a, ok := ast.Unparen(cl.Args[0]).(*ast.Ident); ok && info.ObjectOf(a) == v {
+								via = "append(" + a.Name + ", …)"
+							}
+						}
+						return true
+					}
+					if fn := calleeFunc(info, cl); fn != nil && appendsTo[fn] != nil {
+						for i, a := range cl.Args {
+							if aid, ok := ast.Unparen(a).(*ast.Ident); ok && appendsTo[fn][i] && info.ObjectOf(aid) == v {
+								via = shortSym(FuncKey(fn)) + ", which appends to that parameter"
+							}
+						}
+					}
+					return true
+				})
+				if via == "" {
+					return true
+				}
+				key := fmt.Sprintf("escape.%s->%s", shortSym(FuncKey(e.fd.Obj)), shortSym(FuncKey(g.Obj)))
+				if reported[key+e.fld] {
+					return true
+				}
+				reported[key+e.fld] = true
+				n++
+				c.Fail(key+"#"+strconv.Itoa(n), c.P.Pos(e.ret.Pos()), fmt.Sprintf("%s returns the node's %s itself, and %s hands that result to %s: when the key is a sub-slice of the batch/path array it was created from, the append overwrites the bytes that follow it in the shared array - the keys of the extension nodes below change under their cached hashes (a later Get of a stored key fails, the listing shows a key that was never stored)", shortSym(FuncKey(e.fd.Obj)), e.fld, shortSym(FuncKey(g.Obj)), via))
+				return true
+			})
+		}
+	}
+	if n == 0 {
+		c.OK("no-escaping-field-appended", mptPkg, fmt.Sprintf("%d return statements hand out a node's slice field itself; none of those results reaches an append", len(escapes)))
+	}
 }
 
 // ---------------------------------------------------------------------------
